@@ -17,8 +17,8 @@ LEVEL_TEXT = ('Lean 4 theorems at ℂ/ℝ, stated over the C02 propagation model
               'tilted field, or several fields sharing one tilt, keep their energy over the displaced period; fftshift∘fft2(ortho)∘ifftshift equals the centred unitary dft2 for '
               'even and odd sizes, and — composed with C09 fft_eq_propagate_dft — the whole FFT propagator (grid shape, padding or scratch, crop; any number of '
               'fields, isotropic sampling) returns at most the input power and exactly it on the full grid; normalize_power (factor regenerated from util.py) '
-              'yields power p at every input scale. The propagate_dft correspondence runs the C02 model itself (Gen.dftWindow, Gen.maskShape/Shift, dftAlpha) '
-              'at doubles; propagate_fft and normalize_power run Model/Energy.lean.')
+              'yields power p at every input scale, and a pupil images to its amplitude·mask power (through C07 Plane.multiply). The propagate_dft correspondence runs the C02 model itself (Gen.dftWindow, Gen.maskShape/Shift, dftAlpha) '
+              'at doubles, the propagate_fft correspondence runs the C09 model propagateFft (generated grid shape, guards, scratch regions); normalize_power runs Model/Energy.lean.')
 LEVEL_NOTE = ('Trusted, stated plainly: the fft2 contract `fft2ortho` is written with the model\'s own dft2 (offset ⌊n/2⌋, shift −⌊n/2⌋ '
               'cancelling the centring) and proved equal to the textbook (1/√(mn)) Σ x[a,b] e^{−2πi(ak/m+bl/n)}; that NumPy\'s '
               'fft2(norm="ortho") computes that sum, and that fftshift/ifftshift are the stated index maps, is assumed and only observed '
@@ -27,7 +27,7 @@ LEVEL_NOTE = ('Trusted, stated plainly: the fft2 contract `fft2ortho` is written
               'power). np.dot/np.exp as in C01; floating-point rounding is not modelled.')
 TECHNIQUE = 'Lean 4 proof (roots-of-unity orthogonality, Finset sums) over a generic executable model + differential correspondence'
 GEN = ['FourierWiring', 'Window', 'Extent', 'NormalizePower']
-OPS = ['C01', 'C05', 'C02']
+OPS = ['C01', 'C05', 'C02', 'C09']
 RULE = ('cases: wavefronts of shape 1..5 x 1..5 (one full field, or 2-3 sub-fields with offsets, possibly overlapping), complex '
         'Gaussian data, oversample 1..4, full period K x L = (shape·os) with K ≥ rows, L ≥ cols drawn independently per axis; '
         'propagate_dft on the full period, on a smaller centred window (shape), and on a window nested in it (smaller shape / '
@@ -37,13 +37,13 @@ RULE = ('cases: wavefronts of shape 1..5 x 1..5 (one full field, or 2-3 sub-fiel
 TRUSTED = ['np.fft.fft2(norm="ortho") is the unitary DFT with origin at index 0; np.fft.fftshift / ifftshift follow their documented '
            'index maps (modelled in Model/Energy.lean, observed through the correspondence)',
            'np.dot / np.exp / np.abs / np.sum as written in the model; Wavefront.intensity merges coincident output fields (C06)']
-UNPROVEN = ['"images to total p" for a normalised pupil is the composition normalize_power_power ∘ propagate_dft_energy through Plane.multiply '
-            '(C07: |exp(iφ)| = 1 on the mask), which is not composed here; it is evaluated by the oracle',
+UNPROVEN = ['"images to total p" is proved for a monolithic pupil on the fresh wavefront through propagate_dft (pupil_images_to_amplitude_power); for the FFT '
+            'path and for segmented masks it is the composition with propagate_fft_energy / C03 segmented = monolithic, not restated; evaluated by the oracle',
             'energy for several fields carrying *different* tilts (interference between differently displaced transforms) has no theorem; '
             'the generator gives overlapping fields a common tilt (theorem common_tilt_period_energy) and checks disjoint ones by the oracle',
             'Wavefront.insert(out, weight) = out + weight·intensity is evaluated by the oracle only',
-            'propagate_fft_energy needs isotropic dx·du (C09: the FFT propagator has one wavelength for two grids otherwise — known finding D9); '
-            'the FFT correspondence model (fftPath on embedAll) is the hand model of Model/Energy.lean, not C09 propagateFft']
+            'propagate_fft_energy(_consistent) needs isotropic dx·du or a grid consistent with both samplings (C09: the FFT propagator reports one '
+            'wavelength for two grids otherwise — known finding D9)']
 ASSUMPTIONS = ['commensurate sampling: 1/α is an integer number of samples per axis, at least the wavefront shape',
                'sample sets lie inside one period; all fields lie on the wavefront canvas (Fits)']
 
@@ -463,7 +463,17 @@ def requests(c, io):
             reqs.append(r)
         return reqs
     if c['kind'] == 'fft':
-        return [{'op': 'c05.fft', 'fields': [_fld_req(f) for f in c['fields']], 'fft_shape': [K, L]}]
+        # the C09 model of propagate_fft itself (generated _fft_shape / guards / scratch regions, padding, _fft2, crop)
+        dx = _dx(c); du = _du(c); p = c['phys']
+        base = {'op': 'c09.propagate_fft', 'fields': [_fld_req(f) for f in c['fields']], 'ntilt': [0] * len(c['fields']), 'wshape': c['wshape'],
+                'dx': [fbits(dx[0]), fbits(dx[1])], 'du': [fbits(du[0]), fbits(du[1])], 'wl': fbits(p['wl']), 'z': fbits(p['z']), 'os': os_,
+                'scratch': None}
+        if c['scratch'] is not None:
+            sh = [K + c['scratch'][0], L + c['scratch'][1]]
+            base['scratch'] = {'shape': sh, 're': [fbits(3.0)] * (sh[0] * sh[1]), 'im': [fbits(1.0)] * (sh[0] * sh[1])}
+        reqs = [{**base, 'shape': None}]
+        if c['crop']: reqs.append({**base, 'shape': list(c['crop'])})
+        return reqs
     im = c['amp_im'] if c['amp_im'] is not None else [0.0] * len(c['amp'])
     return [{'op': 'c05.normalize', 'shape': c['wshape'], 're': [fbits(x) for x in c['amp']], 'im': [fbits(x) for x in im],
              'power': fbits(c['power'])}]
@@ -501,16 +511,15 @@ def compare(c, io, mo):
         return None
     if c['kind'] == 'fft':
         tol = TOL * _scale(c)
-        full = _marr(mo[0]['I']); got = _arr(io['full'])
-        if got.shape != full.shape: return f'fft full: shape {got.shape} vs model {full.shape}'
-        d = float(np.max(np.abs(got - full)))
-        if not d <= tol: return f'fft full: max |impl - model| intensity = {d:.3e} > {tol:.1e}'
-        if c['crop']:
-            S = (c['crop'][0] * c['os'], c['crop'][1] * c['os']); got = _arr(io['crop'])
-            if got.shape != S: return f'fft crop: shape {got.shape}, expected {S}'
-            r0 = full.shape[0] // 2 - S[0] // 2; c0 = full.shape[1] // 2 - S[1] // 2
-            d = float(np.max(np.abs(got - full[r0:r0 + S[0], c0:c0 + S[1]])))
-            if not d <= tol: return f'fft crop: max |impl - model| intensity = {d:.3e} > {tol:.1e}'
+        K, L = c['full'][0] * c['os'], c['full'][1] * c['os']
+        for name, m in zip(['full'] + (['crop'] if c['crop'] else []), mo):
+            if m.get('fft_shape') != [K, L]: return f"fft {name}: model grid {m.get('fft_shape')}, period {[K, L]}"
+            cv = m['canvas']
+            want = (np.array([bitsf(x) for x in cv['re']]) ** 2 + np.array([bitsf(x) for x in cv['im']]) ** 2).reshape(cv['shape'])
+            got = _arr(io[name])
+            if got.shape != want.shape: return f'fft {name}: shape {got.shape} vs model {want.shape}'
+            d = float(np.max(np.abs(got - want)))
+            if not d <= tol: return f'fft {name}: max |impl - model| intensity = {d:.3e} > {tol:.1e}'
         return None
     a = np.array(io['a']['re']) + 1j * np.array(io['a']['im'])
     m = mo[0]['a']; b = np.array([bitsf(x) for x in m['re']]) + 1j * np.array([bitsf(x) for x in m['im']])
